@@ -19,6 +19,7 @@ import XsdataModel.Proofs.C09Attrs
 import XsdataModel.Proofs.C09Chunks
 import XsdataModel.Proofs.C09NsRel
 import XsdataModel.Proofs.C09Infoset
+import XsdataModel.Proofs.C09XInclude
 
 namespace Props.C09
 open Py Xs.Bind Proofs.C09
@@ -507,5 +508,100 @@ def toyContract : TokeniserContract := ⟨fun _ => toks plainX, fun _ => some pl
 open Xs.Backends in
 example : Data.primOf (nativeResult toyContract Data.benv Data.ctx {} "Plain".toList []) "y" = some (.bool true) := by
   decide
+
+/-! ## 8. a document split with XInclude (`Backends/XInclude.lean`)
+
+Both handlers replace every `xi:include` element by the root element of the named document; `T`
+below is the merged document (`xiExpand`: `get_base_url`, `xinclude_loader`,
+`ElementInclude.include`).  The lxml handler then passes every element's in-scope namespaces
+(`mergedResult T`).  The native handler walks an ElementTree, which has forgotten the prefix
+declarations: it parses `T` *with the declarations `iterwalk` invents* — one per namespaced
+element, none for prefixes that only values use, never a default namespace. -/
+
+open Xs.Backends in
+/-- **xinclude_native_reads_redeclared**: exactly what `XmlEventHandler` with
+`process_xinclude=True` returns, for every world (files, `urljoin`), base url and document. -/
+theorem xinclude_native_reads_redeclared (W : XiWorld) (wk : List (Str × Str)) (fuel : Nat) (cfgBase src : Option Str)
+    (root : XTree) (e : BEnv) (Γ : Ctx) (cfg : ParserConfig) (c : ClassId) :
+    nativeXiResult W wk fuel cfgBase src root e Γ cfg c =
+      (xiExpand W fuel cfgBase src root).map fun T => mergedResult (redecl wk T []).1 e Γ cfg c := by
+  unfold nativeXiResult nativeXiCalls mergedResult
+  cases xiExpand W fuel cfgBase src root with
+  | error err => rfl
+  | ok T =>
+    simp only [Except.map, assemble_nativeParseTree, parse_nativeTree]
+
+open Xs.Backends in
+/-- **xinclude_invariant_partial** (values): when every lexical value of the merged document resolves
+under the invented declarations as under the real ones (`nsRel`: no QName content or `xsi:type` that
+uses a prefix or a default namespace, no name-like wildcard attribute value, …) the split document is
+parsed by the native handler like the merged one — and like the lxml handler parses it. -/
+theorem xinclude_invariant_partial (W : XiWorld) (wk : List (Str × Str)) (fuel : Nat) (cfgBase src : Option Str)
+    (root T : XTree) (e : BEnv) (Γ : Ctx) (cfg : ParserConfig) (c : ClassId)
+    (hT : xiExpand W fuel cfgBase src root = .ok T)
+    (h : nsRel e (specTree [] (redecl wk T []).1) (specTree [] T) = true) :
+    nativeXiResult W wk fuel cfgBase src root e Γ cfg c = .ok (mergedResult T e Γ cfg c) := by
+  rw [xinclude_native_reads_redeclared, hT]
+  simp only [Except.map, mergedResult, parseRoot_nsRel e Γ cfg c _ _ h]
+
+open Xs.Backends in
+/-- **xinclude_invariant_partial_types**: the same for every universe without QName typed fields and
+merged documents without xsi:type and name-like wildcard attribute values (under either set of
+declarations), whatever else the values look like. -/
+theorem xinclude_invariant_partial_types (W : XiWorld) (wk : List (Str × Str)) (fuel : Nat) (cfgBase src : Option Str)
+    (root T : XTree) (e : BEnv) (Γ : Ctx) (cfg : ParserConfig) (c : ClassId) (hΓ : ctxNoQ Γ = true)
+    (hT : xiExpand W fuel cfgBase src root = .ok T)
+    (h1 : treeOk (specTree [] (redecl wk T []).1) = true) (h2 : treeOk (specTree [] T) = true) :
+    nativeXiResult W wk fuel cfgBase src root e Γ cfg c = .ok (mergedResult T e Γ cfg c) := by
+  rw [xinclude_native_reads_redeclared, hT]
+  simp only [Except.map, mergedResult]
+  rw [prefix_invariant_partial e Γ cfg hΓ c _ _ h1 h2 (by rw [eraseNs_specTree, eraseNs_specTree, skel_redecl])]
+
+open Xs.Backends in
+/-- the full-strength statement: the split document is parsed like the merged one -/
+def XIncludeInvariant : Prop :=
+  ∀ (W : XiWorld) (wk : List (Str × Str)) (fuel : Nat) (cfgBase src : Option Str) (root T : XTree)
+    (e : BEnv) (Γ : Ctx) (cfg : ParserConfig) (c : ClassId),
+    xiExpand W fuel cfgBase src root = .ok T →
+    nativeXiResult W wk fuel cfgBase src root e Γ cfg c = .ok (mergedResult T e Γ cfg c)
+
+open Xs.Backends in
+/-- `<QRoot xmlns:z="urn:z"><q>z:n1</q></QRoot>`, no include in it at all -/
+def xiWitness : XTree :=
+  .node [("z".toList, "urn:z".toList)] "QRoot".toList [] .passed none
+    [.node [] "q".toList [] .passed (some "z:n1".toList) [] none] none
+
+open Xs.Backends in
+/-- **xinclude_counterexample** (finding c09-native-xinclude-prefixes): QName content loses its
+prefix declaration: `q` is the QName `{urn:z}n1` for the merged document and the unconverted
+string `z:n1` (with a ConverterWarning) for the native handler with `process_xinclude`. -/
+theorem xinclude_counterexample : ¬ XIncludeInvariant := by
+  intro h
+  have := h ⟨fun _ h => h, fun _ => none⟩ [] 10 none none xiWitness xiWitness Data.benv Data.ctxQ {} "QRoot".toList (by rfl)
+  have h2 := congrArg (fun r => match r with | .ok x => Data.primOf x "q" | .error _ => none) this
+  revert h2
+  decide
+
+open Xs.Backends in
+theorem xinclude_witness :
+    (match nativeXiResult ⟨fun _ h => h, fun _ => none⟩ [] 10 none none xiWitness Data.benv Data.ctxQ {} "QRoot".toList with
+      | .ok x => Data.primOf x "q" | .error _ => none) = some (.str "z:n1".toList) ∧
+    Data.primOf (mergedResult xiWitness Data.benv Data.ctxQ {} "QRoot".toList) "q" = some (.qname "{urn:z}n1".toList) := by
+  decide
+
+open Xs.Backends in
+/-- `<Plain a="7"><xi:include href="x.xml"/>…` with `x.xml` = `<x>hello</x>`: expands, and the values pass `nsRel` -/
+def xiWorld : XiWorld :=
+  ⟨fun b h => b ++ h, fun f => if f = "/d/x.xml".toList then some (.node [] "x".toList [] .passed (some "hello".toList) [] none) else none⟩
+open Xs.Backends in
+def xiMain : XTree :=
+  .node [("xi".toList, xiNs)] "Plain".toList [("a".toList, "7".toList)] .passed none
+    [.node [] xiInclude [("href".toList, "x.xml".toList)] .passed none [] (some "\n".toList)] none
+open Xs.Backends in
+example : (match xiExpand xiWorld 10 none (some "/d/".toList) xiMain with
+    | .ok T => nsRel Data.benv (specTree [] (redecl [] T []).1) (specTree [] T) | .error _ => false) = true := by decide
+open Xs.Backends in
+example : (match nativeXiResult xiWorld [] 10 none (some "/d/".toList) xiMain Data.benv Data.ctx {} "Plain".toList with
+    | .ok x => Data.primOf x "x" | .error _ => none) = some (.str "hello".toList) := by decide
 
 end Props.C09
